@@ -32,6 +32,10 @@ type c03Case struct {
 	Def    []int64 `json:"def,omitempty"`
 	DefDur bool    `json:"def_dur,omitempty"`
 	Sub    bool    `json:"sub,omitempty"` // the histogram is obtained from a sub-scope of the root
+	// PreKind "v" / "d": another histogram ("pre") with the bounds Pre of that kind is created and used
+	// first under the same root (histograms of one root share cached bucket storage)
+	PreKind string  `json:"pre_kind,omitempty"`
+	Pre     []int64 `json:"pre,omitempty"`
 }
 
 var finiteFloats = []float64{0, 1, -1, 2, 0.5, 1.5, 10, 100, -100, 1e-300, -1e-300, 1e300, -1e300,
@@ -93,6 +97,28 @@ func c03Gen(r *Rng, i int, thorough bool) c03Case {
 				}
 			}
 			c.Spec = append(c.Spec, fbits(f))
+		}
+	}
+	// another histogram created first under the same root: the other kind with the same bit patterns,
+	// or the same kind with the bounds in another order - what one histogram was given must not leak
+	// into another ("a histogram keeps the bounds it was given" is C20; here: each sample lands in the
+	// one correct bucket of ITS histogram)
+	if !c.Nil && r.Chance(25) {
+		c.Pre = append([]int64{}, c.Spec...)
+		c.PreKind = map[bool]string{true: "v", false: "d"}[c.Dur]
+		if r.Chance(30) {
+			c.PreKind = map[bool]string{true: "d", false: "v"}[c.Dur]
+			for a, b := 0, len(c.Pre)-1; a < b; a, b = a+1, b-1 {
+				c.Pre[a], c.Pre[b] = c.Pre[b], c.Pre[a]
+			}
+		}
+		if c.PreKind == "v" {
+			for _, x := range c.Pre {
+				if f := math.Float64frombits(uint64(x)); math.IsNaN(f) || math.IsInf(f, 0) {
+					c.Pre, c.PreKind = nil, ""
+					break
+				}
+			}
 		}
 	}
 	nops := r.Range(1, 14)
@@ -244,6 +270,7 @@ func c03Run(c *c03Case) (in []Ev, obs []Ev, fail string) {
 	scope, closer := tally.VerifNewRootScope(opts, 0, 1)
 	defer closer.Close()
 	var h tally.Histogram
+	preMark := 0
 	func() {
 		defer func() {
 			if p := recover(); p != nil {
@@ -251,6 +278,21 @@ func c03Run(c *c03Case) (in []Ev, obs []Ev, fail string) {
 				obs = append(obs, Ev{K: 98})
 			}
 		}()
+		switch c.PreKind {
+		case "v":
+			pb := make(tally.ValueBuckets, len(c.Pre))
+			for i, x := range c.Pre {
+				pb[i] = math.Float64frombits(uint64(x))
+			}
+			scope.Histogram("pre", pb)
+		case "d":
+			pb := make(tally.DurationBuckets, len(c.Pre))
+			for i, x := range c.Pre {
+				pb[i] = time.Duration(x)
+			}
+			scope.Histogram("pre", pb)
+		}
+		preMark = log.Len()
 		if c.Sub {
 			h = scope.SubScope("s").Histogram("h", b)
 		} else {
@@ -263,7 +305,7 @@ func c03Run(c *c03Case) (in []Ev, obs []Ev, fail string) {
 	// bucket handles of the cached flavour: the full tiling
 	type pair struct{ lo, hi int64 }
 	bounds := map[int64]pair{}
-	for _, e := range log.Snapshot() {
+	for _, e := range log.Snapshot()[preMark:] {
 		if e.K == 24 || e.K == 25 {
 			bounds[e.I[3]] = pair{e.I[1], e.I[2]}
 			f := uint32(0)
